@@ -71,10 +71,14 @@ def op_strategy(draw, style):
         ents, form = draw(raw_entries(style, is_int))
         op.update(type="interval" if is_int else "point", entries=ents, form=form,
                   minT=draw(st.one_of(st.none(), st.just(0.0), lat)), maxT=draw(st.one_of(st.none(), lat, st.just(10.0))))
-    elif kind == "crop":
-        op.update(a=draw(lat), b=draw(lat), mode=draw(st.sampled_from(["strict", "lax", "truncated"])), rebase=draw(st.booleans()))
-    elif kind == "erase":
-        op.update(a=draw(lat), b=draw(lat), mode=draw(st.sampled_from(["truncate", "categorical", "error"])), shrink=draw(st.booleans()))
+    elif kind in ("crop", "erase"):
+        a, b = draw(lat), draw(lat)
+        if a > b and draw(st.integers(0, 7)) != 3:  # mostly proper windows; a>=b (rejected) now and then
+            a, b = b, a
+        if kind == "crop":
+            op.update(a=a, b=b, mode=draw(st.sampled_from(["strict", "lax", "truncated"])), rebase=draw(st.booleans()))
+        else:
+            op.update(a=a, b=b, mode=draw(st.sampled_from(["truncate", "categorical", "error"])), shrink=draw(st.booleans()))
     elif kind == "insert_space":
         op.update(s=draw(lat), d=draw(st.one_of(lat, st.sampled_from([0.0, -0.5, -1.0, 0.3]))),
                   mode=draw(st.sampled_from(["stretch", "split", "no_change", "error"])))
